@@ -293,6 +293,8 @@ _fam("kenamond2", ["kenamond.kenamond2.Kenamond2"], [
     PSet(dict(), PBox([.1, -12.], [5., 12.], surface=3.), [.6]),
     PSet(dict(geometry=3, D1=1.5), PBox([.1, -1., -12.], [5., 1., 12.], surface=3.), [.6]),
     PSet(dict(R=2., D2=1.), PBox([.1, -12.], [5., 12.], surface=2.), [.6]),
+    PSet(dict(dets=[12., 6., -6., -12.], t_d=[2., 1., 0., 1., 2.]), PBox([.1, -13.], [5., 13.], surface=3.), [.6]),
+    PSet(dict(t_d=[1.5, 1., 0., 1., 2.5]), PBox([.1, -12.], [5., 12.], surface=3.), [.6]),
 ])
 _fam("kenamond3", ["kenamond.kenamond3.Kenamond3"], [
     PSet(dict(), PBox([-6., -7.], [6., 7.], reject=lambda p: p[0] ** 2 + p[1] ** 2 < 3.05 ** 2, surface=3.), [.6]),
